@@ -309,7 +309,12 @@ def same_sites(ctx, a_els, a_pos, b_els, b_pos, cell, tol=1e-5):
         for j in free:
             if a_els[i] != b_els[j]:
                 continue
-            d = np.array([fl(b_pos[j][c] - a_pos[i][c]) for c in range(3)])
+            try:
+                d = np.array([fl(b_pos[j][c] - a_pos[i][c]) for c in range(3)])
+            except core.Unsupported:
+                # the difference varies with the symbolic shift on this path region: a continuous non-constant function is not a lattice
+                # vector (a discrete set) on the region, so this is not the same site modulo the lattice
+                continue
             if np.linalg.norm(nearest_image(d, cell)) <= tol:
                 hit = j
                 break
